@@ -379,6 +379,10 @@ func runC01(c *Ctx) error {
 			}
 		}
 	}
+	// the []*big.Int layer of Circuit.Compute: argument layouts and values (c01io.go)
+	if err := c01ComputeIO(c); err != nil {
+		return err
+	}
 	if err := c01Wrappers(c); err != nil {
 		return err
 	}
